@@ -5,6 +5,12 @@ boresight, time_last_tasked, host state and epoch) on real ``SensingAgent`` / ``
 ``SensingAgent.fromConfig`` / ``TargetAgent.fromConfig``.  The oracle (section 1) evaluates every constraint
 independently from refs/geomref.py + refs/ephemref.py; only the ECI->ECEF rotation matrix is taken from the repository
 (``ReductionParams`` at the harness' own datetime; its correctness is C04's subject).
+
+Two workloads feed the same postcondition: the DIRECT mode (sections 4-6: agents driven one call at a time, targets placed by
+construction at every constraint boundary) and the SCENARIO mode (section 7: real multi-step ``Scenario`` runs on the ray stand-in;
+the class-level wrapper sees the calls made inside the task-execution jobs, and additionally checks what the tasking path hands to
+the sensor - estimate as commanded pointing, current truth states, background list without the primary - and that the pointing
+state a call returns is the state the sensor carries into the next step).
 """
 
 from __future__ import annotations
@@ -32,7 +38,10 @@ RULE = ("case = one tasked attempt (one call of the real Sensor.collectObservati
         "mask, rectangular FoV and Earth-limb bands grow by the actual angle between the geodetic vertical of the sub-satellite point and "
         "the geocentric radial (<= 3.4e-3 rad; x tan(el) for azimuth); (b) Sun exclusion: 2e-3 rad low-precision-Sun model band + "
         "range/|r_sun| parallax (target-to-Sun used instead of sensor-to-Sun); umbra, site darkness: 2e-3 rad (+Re/AU); visual magnitude: "
-        "finite difference of the magnitude over +-2e-3 rad of phase angle")
+        "finite difference of the magnitude over +-2e-3 rad of phase angle. "
+        "SCENARIO mode (first ~25% of the wall budget): netkit networks (1-4 ground sensors, 1-5 targets, four decision policies, narrow/wide FoV, "
+        "slew 0.05..180 deg/s, estimate error 1e-3 or 30 km, background on/off) run for 3-6 steps; case = one collectObservations call made inside a "
+        "task-execution job, same postcondition, monitors prefixed scenario_ (not deciding); calls of a sensor with an active time-bias event are skipped")
 ASSUME = [
     "the ECI->ECEF rotation matrix rot_wt @ rot_rnp of ReductionParams at the harness' exact datetime is correct (property C04)",
     "constants shared with the repository: ellipsoid (a, e), Earth radius 6378.1363 km, atmosphere 100 km, Sun radius 696000 km, "
@@ -45,6 +54,9 @@ ASSUME = [
     "segments over 2014-2022 (40000 epochs); band 2e-3 rad",
     "azimuth-dependent comparisons are trivial within 1e-6 rad of the local vertical (C14 covers the zenith rule)",
     "elevation_range is 'order independent' as documented in SensorConfigBase: the oracle sorts it",
+    "scenario mode: the ray stand-in executes a job in-process on pickled copies (DESIGN 3.3); a scenario run aborted by a diverged filter "
+    "(LinAlgError / 'invalid numeric entries') is counted and skipped; with a multi-job sensor (AllVisibleDecision) the carried pointing state "
+    "may be that of any of the step's attempts (order dependence is C08's known finding)",
 ]
 SHARDS = {"quick": 4, "thorough": 16}
 BUDGET_S = {"quick": 55, "thorough": 540}
@@ -52,7 +64,7 @@ DECIDING = ["obs_constraints", "miss_count", "miss_reason", "measurement_exact",
 MANIFEST = {
     "technique": "runtime monitoring: postcondition with OLD snapshot on the real Sensor.collectObservations, independent geometric / "
                  "photometric / link-budget oracle, boundary-by-construction workload",
-    "level_text": "exploration of ~1.4e4 (quick) / ~4e5 (thorough) tasked attempts on real agents",
+    "level_text": "exploration of ~1.4e4 (quick) / ~4e5 (thorough) tasked attempts on real agents + ~3e2 / ~7e3 calls watched inside real Scenario runs",
     "level_note": "booleans compared only outside calibrated epsilon bands; bands widened for the documented approximations only",
 }
 
